@@ -88,6 +88,10 @@ def gen_case(rng):
         n = rng.randint(0, 6)
         kind = rng.choice('if')
         lab = gen.labels(rng, n, kind, rng.choice(['inc', 'dec']))
+        if n >= 2 and rng.random() < 0.3:
+            # weakly monotonic axis with a repeated label (still "monotonic": the bounding-box rule applies)
+            j = rng.randrange(n - 1)
+            lab[j + 1] = lab[j]
         pool = [None] + [v / 4.0 for v in range(-24, 128)] + list(range(-6, 32))
         return {"block": "mono-rand", "lab": lab, "kind": kind, "start": rng.choice(pool), "stop": rng.choice(pool), "step": rng.choice(STEPS + [4, -3])}
     if r < 0.8:
